@@ -209,14 +209,16 @@ where
     results.sort_by_key(|r| r.0);
     for (_, lc) in results {
         rep.merge_counts(&lc);
-        rep.violations_total += lc.viol_total - lc.viols.len() as u64;
-        for (k, v) in &lc.per_class {
-            // the capped remainder of each class
-            let kept = lc.viols.iter().filter(|x| &x.class == k).count() as u64;
-            *rep.per_class.entry(k.clone()).or_insert(0) += v - kept;
-        }
+        let mut kept: BTreeMap<String, u64> = BTreeMap::new();
+        let stored = lc.viols.len() as u64;
         for v in lc.viols {
+            *kept.entry(v.class.clone()).or_insert(0) += 1;
             rep.violation(v);
+        }
+        // the capped remainder of each class
+        rep.violations_total += lc.viol_total - stored;
+        for (k, v) in &lc.per_class {
+            *rep.per_class.entry(k.clone()).or_insert(0) += v - kept.get(k).copied().unwrap_or(0);
         }
     }
     for e in errs.into_inner().unwrap() {
@@ -236,8 +238,14 @@ pub fn panic_msg(e: &Box<dyn std::any::Any + Send>) -> String {
 
 /// Install a panic hook that stays silent (the checks catch panics of the
 /// subject on purpose and report them themselves).
+pub static LAST_PANIC: std::sync::Mutex<String> = std::sync::Mutex::new(String::new());
+
 pub fn quiet_panics() {
-    std::panic::set_hook(Box::new(|_| {}));
+    std::panic::set_hook(Box::new(|info| {
+        if let Ok(mut g) = LAST_PANIC.try_lock() {
+            *g = format!("{}", info);
+        }
+    }));
 }
 
 // ---------------------------------------------------------------- floats
